@@ -13,7 +13,7 @@ import (
 // /verif/corpus/codec.*.ops; the engine runs those files first on every check.
 
 type witness struct {
-	kind string // dec | enc | query
+	kind string // dec | enc | query | sdec | squery (the last two: corpus of the Go-only codec.stress stream)
 	mode string
 	root string
 	arg  string // dec: JSON text; enc: MSG tree; query: "key=v1&v2;key2=…" ("key" alone = no values)
@@ -89,16 +89,56 @@ var witnesses = []witness{
 	{"enc", "n", "test.schema.v1.FullSchema", `(msg (1 (s ff)))`},
 }
 
+// stressWitnesses: exponents far beyond maxDecimalExponent in every spelling (bare / quoted, e / E,
+// signed) and position (object, array, map, query). Each is rejected in microseconds by the
+// unchanged decoder; a decoder whose guard misses one spelling expands 10^7 digits (seconds:
+// c06-slow; or, negative exponent, megabytes: c06-amplification). The two 2^31-1 exponents come
+// last: an unguarded decoder never returns from them (watchdog: c06-crash).
+var stressWitnesses = func() []witness {
+	var ws []witness
+	dec := func(root, doc string) { ws = append(ws, witness{"sdec", "n", root, doc}) }
+	dec("g0.v1.All", `{"sDec":1e10000000}`)
+	dec("g0.v1.All", `{"sDec":"1E10000000"}`)
+	dec("g0.v1.All", `{"sDec":1.5E-10000000}`)
+	dec("g0.v1.All", `{"sDec":"3e-10000000"}`)
+	dec("g0.v1.All", `{"sDec":"-2E+10000000"}`)
+	dec("g0.v1.All", `{"sDec":12345E+3000000}`)
+	dec("g0.v1.All", `{"rDec":["1.5",1e-10000000]}`)
+	dec("g0.v1.All", `{"rDec":["1.5","0.1E-10000000"]}`)
+	dec("g0.v1.All", `{"mDec":{"k":1E-3000000}}`)
+	dec("g0.v1.All", `{"mDec":{"k":"1e+10000000"}}`)
+	dec("test.schema.v1.FullSchema", `{"decimal":1e-3000000}`)
+	dec("test.schema.v1.FullSchema", `{"decimal":"1E3000000"}`)
+	dec("test.schema.v1.FullSchema", `{"rDecimal":[1.1,1e-3000000]}`)
+	dec("g0.v1.All", `{"sDouble":1E10000000}`)
+	dec("g0.v1.All", `{"sFloat":"1e-10000000"}`)
+	dec("g0.v1.All", `{"rDouble":[1e+10000000,"1E-10000000"]}`)
+	ws = append(ws, witness{"squery", "n", "g0.v1.All", "sDec=1E10000000"})
+	ws = append(ws, witness{"squery", "n", "g0.v1.All", "sDec=1e-10000000"})
+	ws = append(ws, witness{"squery", "n", "test.schema.v1.FullSchema", "decimal=1E-3000000"})
+	dec("g0.v1.All", `{"sDec":1e2147483647}`)
+	dec("g0.v1.All", `{"sDec":"1E2147483647"}`)
+	return ws
+}()
+
 func (im *impl) genCorpus(h *vh.H, i int) string {
-	if i >= len(witnesses) {
+	if i >= len(witnesses)+len(stressWitnesses) {
 		return ""
+	}
+	if i >= len(witnesses) {
+		w := stressWitnesses[i-len(witnesses)]
+		w.kind = w.kind[1:]
+		return im.witnessLine(w, "(env)") + " (meta stress)"
 	}
 	w := witnesses[i]
 	ts, md, err := setForRoot(w.root)
 	if err != nil {
 		return ""
 	}
-	env := im.envFor(ts, md)
+	return im.witnessLine(w, im.envFor(ts, md))
+}
+
+func (im *impl) witnessLine(w witness, env string) string {
 	switch w.kind {
 	case "dec":
 		b := []byte(w.arg)
